@@ -57,6 +57,20 @@ pub fn base_scn(rng: &mut Rng, check: &str, mode: &str, need_dec: bool, parties:
     let mut s = Scn::new(check, mode, bs, ck);
     s.key = rng.bytes(ck.key_len());
     s.iv = gen_iv(rng, iv_len(mode, bs));
+    if let Some(fl) = super::c04::flavor_of(mode) {
+        // counter fields at the interesting values (0, 2^k-1, all-ones, low half all-ones, ...)
+        s.iv = super::c04::gen_ctr_iv(rng, fl, bs);
+    } else if mode == "belt" && ck.has_dec() && rng.chance(1, 2) {
+        // BelT-CTR: choose IV = D(target) so that the 128-bit state s = E(IV) sits next to a carry
+        let target: u128 = match rng.below(4) {
+            0 | 1 => u128::MAX - rng.below(48) as u128,
+            2 => (rng.u128() << 64) | (u64::MAX - rng.below(48)) as u128,
+            _ => (rng.u128() << 32) | (u32::MAX as u128 - rng.below(48) as u128),
+        };
+        let mut b = target.to_le_bytes().to_vec();
+        crate::factory::prim_dec(ck, &s.key, &mut b);
+        s.iv = b;
+    }
     s.pol = (0..parties).map(|_| pick_policy(rng)).collect();
     s.env_seed = rng.next();
     s.data = rng.data(pool.max(1));
